@@ -86,6 +86,8 @@ pub open spec fn lookup(st: Seq<Scope>, name: Seq<char>, n: int) -> Option<Seq<c
     if n <= 0 { None } else if st[n - 1].vars@.dom().contains(name) { Some(st[n - 1].vars@[name]) } else { lookup(st, name, n - 1) }
 }
 
+/// elements whose attributes are variable definitions for what they contain or instantiate
+pub open spec fn scoping_name(n: Seq<char>) -> bool { n == "g"@ || n == "symbol"@ || n == "reuse"@ }
 pub uninterp spec fn defaulted(e: SvgElement) -> bool;
 /// `ev` is `raw` after eval_attributes (a relation: several raw elements may evaluate to the same one)
 pub uninterp spec fn evaluated_from(raw: SvgElement, ev: SvgElement) -> bool;
@@ -131,18 +133,20 @@ impl SvgElement {
         requires self.evaluated()     // the box (which applies the element's transform attribute) is computed from evaluated attributes: transform="translate({{1 + 2}} $t)" is legal @C14.group.box_from_evaluated_attributes @C08.group.box_from_evaluated_attributes
     { unimplemented!() }
     #[verifier::external_body] pub fn expand_compound_size(&mut self)
-        requires old(self).evaluated(),     // a compound value (wh, rxy, dwh) is split into its parts only after its expressions are evaluated: "{{$s * 2}} {{$s - 1}}" has blanks inside the expressions @C14.reuse.evaluated_before_split @C18.reuse.evaluated_before_split
-        ensures final(self).evaluated()
+        requires !scoping_name(old(self).name@),     // (as for resolve_size_delta: `wh` on a group is the variable $wh) @C15.instance.scoping_attributes_stay_variables @C18.instance.scoping_attributes_stay_variables
+            old(self).evaluated(),     // a compound value (wh, rxy, dwh) is split into its parts only after its expressions are evaluated: "{{$s * 2}} {{$s - 1}}" has blanks inside the expressions @C14.reuse.evaluated_before_split @C18.reuse.evaluated_before_split
+        ensures final(self).evaluated(), final(self).name == old(self).name
     { unimplemented!() }
     /// ghost: dw / dh (dwh) have been applied to the size attributes ("Assumes any dw / dh have already been applied", SvgElement::size)
     pub uninterp spec fn deltas_resolved(&self) -> bool;
     /// ghost: the position shorthands (xy, cxy, xy1, xy2, dxy) have been expanded into their per-axis attributes
     pub uninterp spec fn pos_expanded(&self) -> bool;
     #[verifier::external_body] pub fn size(&self, ctx: &TransformerContext) -> Result<Option<Size>>
-        requires self.deltas_resolved()     // the size an instance is placed with includes the template's dw / dh: placing it must not change its size @C18.instance.size_includes_deltas
+        requires self.deltas_resolved() || scoping_name(self.name@)     // the size an instance is placed with includes the template's dw / dh: placing it must not change its size @C18.instance.size_includes_deltas
     { unimplemented!() }
     #[verifier::external_body] pub fn resolve_size_delta(&mut self)
-        requires old(self).evaluated()
+        requires old(self).evaluated(),
+            !scoping_name(old(self).name@),     // the attributes of a group / symbol / reuse instance are VARIABLES of what it contains: folding dw into width (or splitting wh) would redefine them for the content @C15.instance.scoping_attributes_stay_variables @C18.instance.scoping_attributes_stay_variables
         ensures final(self).evaluated(), final(self).deltas_resolved()
     { unimplemented!() }
     #[verifier::external_body] pub fn expand_compound_pos(&mut self)
@@ -392,14 +396,14 @@ pub fn override_attrs(reuse_element: &SvgElement, instance_element: &mut SvgElem
 //@rewrite strlit strmatch
 impl EventGen for ReuseElement {
 //@item src/reuse.rs :: impl EventGen for ReuseElement :: fn generate_events
-//@ strlit "g"
+//@ strlit "g" "symbol" "reuse"
 //@ replace[R-parse] <<<elref.parse()>>> => <<<parse_elref(&elref)>>>
 //@ replace[R-abstract] <<<        for (attr, value) in reuse_element.get_attrs() {\n            match attr.as_str() {\n                "href" | "id" | "x" | "y" => continue,\n                "transform" => {\n                    // append to any existing transform\n                    let mut xfrm = value.clone();\n                    if let Some(inst_xfrm) = instance_element.get_attr("transform") {\n                        xfrm = format!("{} {}", inst_xfrm, xfrm);\n                    }\n                    instance_element.set_attr("transform", &xfrm);\n                }\n                _ => {\n                    // this is the _opposite_ of set_default_attr(); it allows\n                    // the target element to provide defaults, but have them\n                    // overridden by the reuse element.\n                    if instance_element.has_attr(&attr) {\n                        instance_element.set_attr(&attr, &value);\n                    }\n                }\n            }\n        }>>> => <<<        override_attrs(&reuse_element, &mut instance_element);>>>
 //@ replace[R-ctor] <<<SvgElement::new("g", &[])>>> => <<<SvgElement::new_g()>>>
 //@ replace[R-ctor] <<<Position::from(&reuse_element)>>> => <<<position_from(&reuse_element)>>>
 //@ replace[R-abstract] <<<            let mut new_events = InputList::new();\n            let tag_name = instance_element.name.clone();\n            let mut start_ev = InputEvent::from(OutputEvent::Start(instance_element));\n            start_ev.index = start;\n            start_ev.alt_idx = Some(end);\n            new_events.push(start_ev);\n            new_events.extend(&InputList::from(&context.events[start + 1..end]));\n            let mut end_ev = InputEvent::from(OutputEvent::End(tag_name));\n            end_ev.index = end;\n            end_ev.alt_idx = Some(start);\n            new_events.push(end_ev);\n            process_events(new_events, context)>>> => <<<            let new_events = instance_events(instance_element, start, end, context);\n            process_events(new_events, context)>>>
 //@ before <<<instance_element.expand_compound_size();>>>
-//@ | assert(instance_element.name@ == "g"@ ==> exists|raw: SvgElement| #[trigger] evaluated_from(raw, instance_element) && scope_vars_bounded(raw, instance_element, context.config.var_limit as nat)); // the attributes of a group instance become variables of its content: bounded like any other scope variable @C17.scope.group_instance_vars_bounded @C01.scope.group_instance_vars_bounded
+//@ | assert(scoping_name(instance_element.name@) ==> exists|raw: SvgElement| #[trigger] evaluated_from(raw, instance_element) && scope_vars_bounded(raw, instance_element, context.config.var_limit as nat)); // the attributes of a group / symbol / reuse instance become variables of what it contains or instantiates: bounded like any other scope variable (a symbol turns into a g a few lines further down; a reuse pushes them itself, but then sees them already evaluated) @C17.scope.group_instance_vars_bounded @C01.scope.group_instance_vars_bounded
 //@ before <<<instance_element.generate_events(context)>>>
 //@ | assert(defaulted(instance_element)); // a single-element instance is a leaf like the hand-written one: the defaults in force apply to it @C18.instance.defaults_applied
 //@ ensures
